@@ -1,7 +1,7 @@
-From GD Require Import C04.Bytes C03.Write C03.Sie C03.Text.
+From GD Require Import C04.Bytes Gen.SieSeek C03.Write C03.Sie C03.Text.
 Require Import ExtrOcamlBasic.
 Extraction Language OCaml.
 Extraction "model.ml" x86_64 all_types mkSex zero_sample raw_put raw_decode raw_layout
   mkOop oop_put oop_finish oop_abs oop_get
-  sie_open sie_put sie_get sie_seek sie_put_fx sie_reopen sie_abs sie_layout sie_parse recs
+  sie_open sie_put_v sie_get sie_seek_v seek_shortcut_guarded sie_reopen sie_abs sie_layout sie_parse recs
   array_write bit_out bit_in mplex_spec mplex_code text_put_bytes render.
